@@ -166,7 +166,7 @@ def run_property(prop, tier, seed, replay):
     # what the concurrency monitor found: outcomes no one-at-a-time order explains, stuck steps
     reproduced = {}
     for m in (monitor if (ok_r and ok_h) else []):
-        if m["kind"] not in cfg.get("monitor_kinds", ["NONLIN", "STUCK", "VANISH"]):
+        if m["kind"] not in cfg.get("monitor_kinds", ["NONLIN", "STUCK", "VANISH", "GHOST"]):
             continue
         cls = m["class"]
         kf = [k for k in known if k.get("class") == cls] if (m["kind"] == "NONLIN" and cfg.get("known_classes")) else []
@@ -199,6 +199,19 @@ def run_property(prop, tier, seed, replay):
         if kf.get("class") not in reproduced:
             known_lines.append("KNOWN-FINDING: property=%s class=%s site=%s %s (listed; not reproduced in this run)" % (
                 prop, kf.get("class"), kf.get("site", "?"), kf["what"]))
+    # at most five disagreements are minimised and reported: those that are failing inputs for
+    # this property first (a difference of a kind the property speaks about; for a schedule,
+    # one a monitor vouches for), in the order of the suites otherwise
+    mon_cases = {m["case"] for m in (monitor if (ok_r and ok_h) else [])}
+
+    def rank(d):
+        tag, cid, _tl, _idx, il, ml = d
+        rel, _k = classify(prop, cfg, il, ml)
+        rel = rel or bool(set(vlib.SYMKINDS.get(cid, set())) & set(cfg.get("relevant", "RSMU")))
+        if tag.startswith("conc_") and not (il or "").startswith(("HANG", "STUCK")) and cid not in mon_cases:
+            rel = False
+        return 0 if rel else 1
+    diffs = sorted(diffs, key=rank)
     for d in diffs[:5]:
         tag, cid, trace_lines, idx, il, ml = d
         profile = "conn" if tag.startswith("conn_") else ("pol" if tag == "conc_pol" else "conc" if tag.startswith("conc_") else ("limit" if tag == "limit" else ("cfg" if tag == "cfg" else "seq")))
